@@ -6,7 +6,7 @@
     cache update and the store write; released by [DRelL] / [DRelT]). *)
 From Coq Require Import List.
 From RecordUpdate Require Import RecordSet.
-From GH Require Import Base.Prelude Model.Verify Model.Ranges Model.Syncer Oracle.C07.
+From GH Require Import Base.Prelude Model.Verify Model.Ranges Model.Syncer Proofs.RangesP Proofs.SyncerP Proofs.SyncerInvP Oracle.C07.
 Import RecordSetNotations.
 
 Record case03 := Case03 {
@@ -43,14 +43,30 @@ Definition model03 (k : case03) :=
   let '(os, cf) := sim (q_drift k) (q_trust k) (q_gate k) u (init_cfg (q_tail k) (q_init k)) (map fst (q_acts k)) in
   (os,
    map (ret_of cf) (seq 0 (length (c_thr cf))),
-   model_probe_all (q_tail k) (N.max (top_of k) (rs_head (c_store cf) + 2)) cf,
+   (model_probe_all (q_tail k) (N.max (top_of k) (rs_head (c_store cf) + 2)) cf,
+    map (fun h => (h_height h, h_id h)) (rs_log (c_store cf))),
    sort_nodup (map h_height (rs_log (c_store cf))),
    N.of_nat (length (sort_nodup (map h_id (rs_log (c_store cf)))))).
 
+(** learner calls in spawn order: true = gossip verifier call (its error is observable), false = Head() call *)
+Definition call_kinds (l : list (dact * obs)) : list bool :=
+  flat_map (fun p => match fst p with DDeliver _ _ _ => [true] | DHead _ => [false] | _ => [] end) l.
+
+Fixpoint res_agree (kinds : list bool) (m i : list N) : bool :=
+  match kinds, m, i with
+  | [], [], [] => true
+  | kd :: kr, a :: mr, b :: ir => (if kd then a =? b else true) && res_agree kr mr ir
+  | _, _, _ => false
+  end.
+
 Definition agree03 (k : case03) : bool :=
-  let '(os, res, pr, dump, nh) := model03 k in
-  list_eqb obs_eqb os (map snd (q_acts k)) && list_eqb N.eqb res (q_results k)
-  && list_eqb pairNN_eqb pr (q_probe k) && list_eqb N.eqb dump (q_dump k)
+  let '(os, res, (pr, stored), dump, nh) := model03 k in
+  list_eqb obs_eqb os (map snd (q_acts k)) && res_agree (call_kinds (q_acts k)) res (q_results k)
+  (* the Store serves the same heights; where two different headers were appended at one height (forks, over-long
+     answers) which of them it serves is the Store's business (C04): it must be one of those the model stored there *)
+  && list_eqb N.eqb (map fst pr) (map fst (q_probe k))
+  && forallb (fun p => existsb (pairNN_eqb p) stored) (q_probe k)
+  && list_eqb N.eqb dump (q_dump k)
   (* header entries: the store's write batch keeps one header per height, so a header replaced at its height
      before the batch is flushed never reaches the disk: at most the model's count, at least one per height *)
   && (q_hashes k <=? nh) && (N.of_nat (length dump) <=? q_hashes k).
@@ -139,3 +155,24 @@ Definition ok03 (k : case03) : bool :=
   && forallb (fun p => existsb (N.eqb (snd p)) ids) (q_probe k).
 
 Definition chk03 (k : case03) : bool * bool * N := (agree03 k, ok03 k, 0).
+
+(** ** tying the oracle's final check to the theorem: in every configuration
+    satisfying the invariant of C03_store_contiguous with no Append in flight,
+    the store probe the oracle inspects ([rs_get] per height) finds a header
+    exactly at the heights tail..head *)
+Lemma rs_get_has n s : (exists h, rs_get n s = Some h) <-> rs_has n (rs_log s) = true.
+Proof.
+  unfold rs_get, rs_has. split.
+  - intros (h & Hf). apply find_some in Hf. apply existsb_exists. exists h. exact Hf.
+  - intros He. apply existsb_exists in He. destruct He as (x & Hx & E).
+    destruct (find (fun h => h_height h =? n) (rs_log s)) as [h|] eqn:Ef; [exists h; reflexivity|].
+    exfalso. pose proof (find_none _ _ Ef x Hx) as Hn. cbn in Hn. congruence.
+Qed.
+
+Lemma inv_probe tail c :
+  Inv tail c -> reserved c = [] ->
+  forall n, (exists h, rs_get n (c_store c) = Some h) <-> tail <= n <= rs_head (c_store c).
+Proof.
+  intros HI Hq n. rewrite rs_get_has.
+  destruct (store_contiguous tail c HI) as (_ & _ & _ & _ & Hx & _). apply Hx. exact Hq.
+Qed.
